@@ -8,6 +8,20 @@ Three observations of the real code:
       byte-identical tables.
 The Lean side (Props/C07.lean) proves history independence for the state machine of the strategy objects;
 the pipeline model that instantiates its stages is compared with (a) when it is available.
+
+Round 5 (one random stream per command-line run): the command line seeds numpy ONCE and all methods of --methods draw
+from that generator, so the position of a method in the stream - hence the order in which the methods are processed -
+decides its tie-breaking.  Added:
+  (c) command-line cases RICH IN TIES (gen_cli.gen_tied_*: many protein groups with exactly the same best PEP, targets
+      and decoys interleaved) with 2-4 methods per run, a method named twice, names with surrounding spaces when the
+      tool's parser accepts them, in the hash-seed stage; tie-rich peptide lists in the call-sequence / fresh-process
+      stages;
+  (d) an independent oracle on every command-line case: the files a process writes equal the recomputation IN THIS
+      PROCESS with the tool's own functions, the methods taken from --methods in the order given (one run per mention)
+      on one generator seeded with 1 (`run_in_command_line_order`);
+  (e) cases of kind "cli_stream": the real main(argv) in-process (harness/cli_model.py) with the permutations of
+      np.random.shuffle recorded at PROCESS level, against the stream form of the glue model (Model/C07Stream.lean,
+      driver op "cli_stream": every method's permutations are cut out of the process's stream in command-line order).
 """
 import json
 import os
@@ -24,6 +38,7 @@ from lib import Prop, rat
 import gen_pil
 import gen_cli
 import pipeline
+import cli_model
 
 VERIF = lib.VERIF
 
@@ -91,6 +106,28 @@ CLI_PROFILES = [
     {"n_fasta": 3, "inputs": ["perc"], "n_ev": 3, "remap": "both", "dups": True},
     {"n_fasta": 2, "inputs": ["mq"], "n_ev": 3, "n_sets": 3, "remap": True, "quant": True, "several": DIG_OPTIONS},
 ]
+
+# command lines RICH IN TIES (gen_cli.gen_tied_*), 2-4 methods per run on ONE random stream: a method named twice, names
+# with surrounding spaces (only where the tool's own parser accepts them)
+CLI_TIE_PROFILES = [
+    {"ties": True, "n_fasta": 1, "inputs": ["perc"], "n_ev": 1, "n_methods": 2},
+    {"ties": True, "n_fasta": 2, "inputs": ["mq"], "n_ev": 1, "n_methods": 3, "twice": True},
+    {"ties": True, "n_fasta": 1, "inputs": ["perc"], "n_ev": 2, "n_methods": 4},
+    {"ties": True, "n_fasta": 1, "inputs": ["mq", "perc"], "n_ev": 1, "n_methods": 3},
+    {"ties": True, "n_fasta": 1, "inputs": ["mq"], "n_ev": 1, "n_methods": 2, "spaces": True},
+    {"ties": True, "n_fasta": 2, "inputs": ["perc"], "n_ev": 1, "n_methods": 3, "twice": True, "spaces": True},
+]
+
+
+def accepts_spaces():
+    """does the tool's own --methods parser accept a name with surrounding spaces?  (asked of the tree under test)"""
+    lib.setup_impl_path()
+    try:
+        from picked_group_fdr import methods as M
+
+        return len(M.get_methods(" picked_protein_group ,picked_protein_group", False)) >= 1
+    except BaseException:
+        return False
 
 
 def list_valued_options():
@@ -175,6 +212,221 @@ def describe_cli(case):
     return "methods %s, %d fasta file(s), %s" % (m.get("methods"), m.get("n_fasta", 0), " ".join(multi_valued(case["argv"])) or "no multi-valued option")
 
 
+# --------------------------------------------------------------------------------------------------
+# the command line recomputed with the methods in the order given
+# --------------------------------------------------------------------------------------------------
+def run_in_command_line_order(argv):
+    """what `run_picked_group_fdr` does, with the tool's own functions, but with the list of methods taken from
+    --methods IN THE ORDER GIVEN, one run per mention (every entry is handed to the tool's `get_methods` on its own, so
+    how a single name is spelled / parsed is the tool's business): numpy seeded once with 1, annotations, methods,
+    peptide->protein maps if a method needs them, `run_method` per method.  Paths of argv are resolved against the
+    current directory, as in the tool."""
+    import numpy as np
+    from picked_group_fdr import methods as M
+    from picked_group_fdr import peptide_protein_map, protein_annotation
+    from picked_group_fdr import picked_group_fdr as pgf
+
+    args = pgf.parse_args(list(argv))
+    np.random.seed(1)
+    ann, use_pseudo = protein_annotation.get_protein_annotations(args.fasta, args.fasta_contains_decoys, args.gene_level, args.fasta_use_uniprot_id)
+    cfgs = []
+    for name in (args.methods.split(",") if args.methods else [args.methods]):
+        cfgs.extend(M.get_methods(name, use_pseudo))
+    maps = [None]
+    if M.requires_peptide_to_protein_map(cfgs):
+        maps = peptide_protein_map.get_peptide_to_protein_maps_from_args(args, use_pseudo)
+    plotter = pgf.PlotterFactory.get_plotter(args.figure_base_fn, args.plot_figures)
+    for cfg in cfgs:
+        pgf.run_method(args, cfg, maps, ann, plotter, use_pseudo, apply_filename_suffix=len(cfgs) > 1)
+    return len(cfgs)
+
+
+def _tree(root):
+    out = {}
+    for f in sorted(Path(root).rglob("*")):
+        if f.is_file():
+            out[str(f.relative_to(root))] = f.read_bytes().decode("utf-8", "replace")
+    return out
+
+
+def _in_dir(wd, fn):
+    import logging
+
+    cwd = os.getcwd()
+    prev = logging.root.manager.disable
+    logging.disable(logging.CRITICAL)
+    os.chdir(wd)
+    try:
+        return {"ok": True, "n": fn()}
+    except BaseException as e:  # SystemExit of argparse included: the tool refuses the command line
+        if isinstance(e, KeyboardInterrupt):
+            raise
+        return {"ok": False, "exc": "%s: %s" % (type(e).__name__, str(e)[:200])}
+    finally:
+        os.chdir(cwd)
+        logging.disable(prev)
+
+
+def recompute_in_order(case):
+    """the files of a "cli-hashseed" case recomputed in this process in command-line order"""
+    lib.setup_impl_path()
+    d = Path(tempfile.mkdtemp(prefix="c07o_"))
+    try:
+        for name, text in case["files"].items():
+            (d / name).write_text(text)
+        wd = d / "run"
+        wd.mkdir()
+        r = _in_dir(str(wd), lambda: run_in_command_line_order(case["argv"]))
+        r["files"] = _tree(wd)
+        return r
+    finally:
+        import shutil
+
+        shutil.rmtree(d, ignore_errors=True)
+
+
+def differs_from_command_line_order(case, runs, inorder):
+    """None, or how the files a process wrote differ from the recomputation in command-line order (judged when both
+    completed: whether a command line is accepted at all is not this property's business)"""
+    if not inorder or not inorder.get("ok"):
+        return None
+    for r in runs:
+        if r["rc"] != 0 or r["files"] == inorder["files"]:
+            continue
+        what = "the sets of files differ: %s / %s" % (sorted(r["files"]), sorted(inorder["files"]))
+        for name in sorted(set(r["files"]) & set(inorder["files"])):
+            a, b = r["files"][name], inorder["files"][name]
+            if a != b:
+                la, lb = a.splitlines(), b.splitlines()
+                k = next((i for i, (x, y) in enumerate(zip(la, lb)) if x != y), min(len(la), len(lb)))
+                what = "%s differs from line %d on: %s / %s" % (name, k + 1, la[k].split("\t")[:2] if k < len(la) else None,
+                                                               lb[k].split("\t")[:2] if k < len(lb) else None)
+                break
+        return ("the process with PYTHONHASHSEED=%s did not write what the methods of --methods give when run in the order given "
+                "on one generator seeded with 1 (%s): %s" % (r["hs"], describe_cli(case), what))
+    return None
+
+
+def tie_stats(files):
+    """(rows, rows that share their score with another row, tie blocks holding a target and a decoy) over the tables"""
+    rows = tied = mixed = 0
+    for text in files.values():
+        ls = [ln.split("\t") for ln in text.splitlines()]
+        if not ls or "Score" not in ls[0] or "Protein IDs" not in ls[0]:
+            continue
+        si, pi = ls[0].index("Score"), ls[0].index("Protein IDs")
+        blocks = {}
+        for r in ls[1:]:
+            if len(r) > max(si, pi):
+                blocks.setdefault(r[si], []).append(r[pi].startswith(("REV__", "rev_")))
+        rows += len(ls) - 1
+        tied += sum(len(b) for b in blocks.values() if len(b) > 1)
+        mixed += sum(1 for b in blocks.values() if len(set(b)) > 1)
+    return rows, tied, mixed
+
+
+# --------------------------------------------------------------------------------------------------
+# the real main(argv) in-process with the permutations recorded at process level ("cli_stream")
+# --------------------------------------------------------------------------------------------------
+STREAM_SHARE = 0.12
+
+
+def coarsen(case, levels):
+    """PEPs of a cli_model case mapped onto a grid of one to three values (a function of the old value, so that a file
+    mentioned twice keeps equal rows): many groups then share exactly the same best PEP"""
+    grid = sorted(gen_pil.PEP_GRID)
+    for files in case["evidence"].values():
+        for rows in files:
+            for r in rows:
+                if r["score"] != "nan":
+                    x = pipeline.fl(r["score"])
+                    k = min(range(len(grid)), key=lambda i: abs(grid[i] - x))
+                    r["score"] = rat(float(levels[k % len(levels)]))
+    return case
+
+
+def gen_stream_case(rng, tier):
+    """a cli_model command line (MaxQuant / Percolator methods) with at least two methods and tie-rich evidence"""
+    c = None
+    for _ in range(30):
+        c = cli_model.gen_case(rng, tier, only_inputs=("mq", "perc"))
+        if len(c["methods"]) >= 2:
+            break
+    c = coarsen(c, rng.choice(gen_cli.TIE_LEVELS))
+    c["kind"] = "cli_stream"
+    return c
+
+
+def run_stream(case):
+    import numpy as np
+
+    stream = []
+    orig = np.random.shuffle
+
+    def shuffle(x):  # every permutation the PROCESS draws, in the order drawn (cli_model's own recorder calls this one)
+        idx = list(range(len(x)))
+        orig(idx)
+        before = list(x)
+        x[:] = [before[i] for i in idx]
+        stream.append(idx)
+
+    np.random.shuffle = shuffle
+    try:
+        out = cli_model.run_impl(case)
+    finally:
+        np.random.shuffle = orig
+    out["_rec"]["stream"] = stream
+    # the same command line recomputed in command-line order (own rendering of the files)
+    d = tempfile.mkdtemp(prefix="c07s_")
+    try:
+        work, outdir = os.path.join(d, "work"), os.path.join(d, "out")
+        os.makedirs(work)
+        os.makedirs(outdir)
+        argv = cli_model.render(case, d) + ["--protein_groups_out", os.path.join(outdir, "out.txt")]
+        r = _in_dir(work, lambda: run_in_command_line_order(argv))
+        files = {}
+        for where, dd in (("given", outdir), ("cwd", work)):
+            for fn in sorted(os.listdir(dd)):
+                if os.path.isfile(os.path.join(dd, fn)):
+                    with open(os.path.join(dd, fn), newline="", encoding="utf-8") as fh:
+                        files[where + "/" + fn] = fh.read()
+        r["files"] = files
+        out["_rec"]["inorder"] = r
+    finally:
+        import shutil
+
+        shutil.rmtree(d, ignore_errors=True)
+    return out
+
+
+def stream_written(impl_out):
+    """the files the real run left behind: per file the last table a method wrote there"""
+    last = {}
+    for c in impl_out["_rec"]["calls"]:
+        if c["written"]:
+            last[c["written"]["where"] + "/" + c["written"]["file"]] = c["written"]["text"]
+    return last
+
+
+def tied_pil(rng):
+    """a peptide list rich in ties: 4-9 proteins and decoys, one or two peptides each, PEPs from a grid of one to three
+    values, targets and decoys interleaved"""
+    n = rng.randint(4, 9)
+    levels = rng.choice(gen_cli.TIE_LEVELS)
+    used, entries = set(), []
+    for i in range(1, n + 1):
+        for pre in ("", rng.choice(["REV__", "REV__", "rev_"])):
+            if rng.random() < 0.85:
+                for _ in range(rng.choice([1, 1, 2])):
+                    entries.append([gen_pil._pep_name(rng, used), rng.choice(levels), [pre + "P%d" % i]])
+    if n >= 2 and rng.random() < 0.4:
+        a, b = rng.sample(range(1, n + 1), 2)
+        entries.append([gen_pil._pep_name(rng, used), rng.choice(levels), ["P%d" % a, "P%d" % b]])
+    rng.shuffle(entries)
+    return entries or [[gen_pil._pep_name(rng, used), levels[0], ["P1"]]]
+
+
+
 class P(Prop):
     id = "C07"
     quick_cases = 100
@@ -191,6 +443,11 @@ class P(Prop):
     trusted_extra = ["fresh-process reference harness/c07_fresh.py"]
 
     def gen_case(self, rng, tier):
+        if rng.random() < STREAM_SHARE:
+            return gen_stream_case(rng, tier)
+        return self.gen_seq_case(rng, tier)
+
+    def gen_seq_case(self, rng, tier):
         ms = method_names()
         # methods whose strategy objects carry per-run state get most of the weight: multPEP (optimised divisor),
         # razor (peptide counts, best scores), rescued grouping (score cutoff, placeholder groups), picked (seen-set)
@@ -199,7 +456,9 @@ class P(Prop):
                     or fields[m]["grouping"].startswith("rescued")]
         m = rng.choice(stateful) if (stateful and rng.random() < 0.7) else rng.choice(ms)
         n = rng.randint(2, 5)
-        base = [gen_pil.gen_pil(rng, tier) if rng.random() < 0.7 else gen_pil.gen_rescue_pil(rng, tier)[0] for _ in range(rng.randint(1, n))]
+        ties = rng.random() < 0.35  # inputs rich in ties: the order inside a tie block shows every dependence on set order
+        base = [tied_pil(rng) if (ties and rng.random() < 0.8) else
+                gen_pil.gen_pil(rng, tier) if rng.random() < 0.7 else gen_pil.gen_rescue_pil(rng, tier)[0] for _ in range(rng.randint(1, n))]
         # variants that differ in kind from their source: targets only, decoys only, a single peptide, the strongest half
         for b in list(base):
             r = rng.random()
@@ -226,9 +485,12 @@ class P(Prop):
     def run_impl(self, case):
         """the call sequence on ONE reused MethodConfig (every call observed with the pipeline recorders, so that
         each can be compared with the Lean model of a call on a fresh object), then every call on a fresh object"""
+        if case.get("kind") == "cli_stream":
+            return run_stream(case)
         if case.get("kind") == "cli-hashseed":  # a replayed command-line case of the extra stage
+            inorder = recompute_in_order(case)
             with ThreadPoolExecutor(8) as ex:
-                return {"cli_runs": list(ex.map(lambda hs: run_cli_once(case, hs), case["hashseeds"]))}
+                return {"cli_runs": list(ex.map(lambda hs: run_cli_once(case, hs), case["hashseeds"])), "inorder": inorder}
         from picked_group_fdr import methods
 
         cfg = methods.parse_method_toml(case["method"], use_pseudo_genes=False)
@@ -241,12 +503,28 @@ class P(Prop):
         return {"seq": [brief(o) for o in seq_full], "fresh": [brief(o) for o in fresh_full], "_rec": {"seq_full": seq_full}}
 
     def model_request(self, case, impl_out):
+        if case.get("kind") == "cli_stream":
+            if not isinstance(impl_out, dict) or "_rec" not in impl_out:
+                return None
+            req = cli_model.model_request(case, impl_out)
+            req["op"] = "cli_stream"
+            for r in req["recs"]:
+                r.pop("shuffles", None)  # the model cuts every method's permutations out of the process's stream
+            req["stream"] = impl_out["_rec"]["stream"]
+            return req
         if case.get("kind") == "cli-hashseed":
             return None  # set order of CPython is exercised, not modelled
         # one model call per real call: the model is a call on a FRESH configuration (PgFdr.Pipeline.run)
         return [pipeline.model_request(self._sub(case, pil), o) for pil, o in zip(case["inputs"], impl_out["_rec"]["seq_full"])]
 
     def model_view(self, case, resps, impl_out):
+        if case.get("kind") == "cli_stream":
+            if "proto_err" in resps:
+                return resps
+            v = {"cli": cli_model.model_view(case, resps, impl_out)}
+            if resps.get("err") is None:  # a run that completed draws exactly the permutations the model says
+                v["permutations_drawn"] = resps["used"]
+            return v
         out = []
         for pil, resp, o in zip(case["inputs"], resps, impl_out["_rec"]["seq_full"]):
             sub = self._sub(case, pil)
@@ -260,13 +538,20 @@ class P(Prop):
         return out
 
     def impl_view(self, case, impl_out):
+        if case.get("kind") == "cli_stream":
+            v = {"cli": cli_model.impl_view(case, impl_out)}
+            if impl_out.get("err") is None:
+                v["permutations_drawn"] = len(impl_out["_rec"]["stream"])
+            return v
         if case.get("kind") == "cli-hashseed":
             return None
         return [pipeline.impl_view(self._sub(case, pil), o) for pil, o in zip(case["inputs"], impl_out["_rec"]["seq_full"])]
 
     def oracle(self, case, impl_out):
+        if case.get("kind") == "cli_stream":
+            return self.stream_oracle(case, impl_out)
         if case.get("kind") == "cli-hashseed":
-            return cli_runs_differ(case, impl_out["cli_runs"])
+            return cli_runs_differ(case, impl_out["cli_runs"]) or differs_from_command_line_order(case, impl_out["cli_runs"], impl_out.get("inorder"))
         for i, (a, b) in enumerate(zip(impl_out["seq"], impl_out["fresh"])):
             if a != b:
                 return f"call {i} on a reused configuration object differs from the same call on a fresh one (method {case['method']})"
@@ -279,20 +564,65 @@ class P(Prop):
             seen.setdefault(k, i)
         return None
 
+    def stream_oracle(self, case, impl_out):
+        """on what the real in-process run produced (never the model): the permutations the methods recorded are the
+        process's stream cut in the order of --methods, and the files left behind are the ones of the recomputation in
+        command-line order"""
+        if not isinstance(impl_out, dict) or "_rec" not in impl_out:
+            return "no result: %r" % (impl_out,)
+        rec = impl_out["_rec"]
+        if impl_out.get("err") is not None:
+            return None  # refused / degenerate input: nothing written that could depend on the order
+        calls = rec["calls"]
+        per_method = [sh for c in calls if c.get("gpr") for sh in c["gpr"]["shuffles"]]
+        if per_method != rec["stream"]:
+            return ("command line %s: the permutations drawn inside the methods' inference calls (%d) are not the process's random "
+                    "stream (%d permutations) in order" % (cli_model.describe(case), len(per_method), len(rec["stream"])))
+        ino = rec.get("inorder")
+        if ino and ino.get("ok"):
+            got = stream_written(impl_out)
+            if got != ino["files"]:
+                name = next((k for k in sorted(set(got) | set(ino["files"])) if got.get(k) != ino["files"].get(k)), None)
+                return ("command line %s (--methods %s): the run did not write what the methods give when run in the order given on one "
+                        "generator seeded with 1: %s differs (files %s / %s)" % (cli_model.describe(case), ",".join(case["methods"]), name,
+                                                                                 sorted(got), sorted(ino["files"])))
+        return None
+
     def nontrivial(self, case, impl_out):
+        if case.get("kind") == "cli_stream":
+            return cli_model.nontrivial(case, cli_model.impl_view(case, impl_out)) if isinstance(impl_out, dict) and "methods" in impl_out else False
         if case.get("kind") == "cli-hashseed":
             return any(n >= 2 for r in impl_out.get("cli_runs", []) for n in r["lines"].values())
         return sum(1 for r in impl_out.get("seq", []) if "rows" in r and r["rows"]) >= 2
 
     def features(self, case, impl_out):
+        if case.get("kind") == "cli_stream":
+            f = ["kind=cli_stream", "cli_stream:methods=%d" % len(case["methods"])]
+            if len(set(case["methods"])) < len(case["methods"]):
+                f.append("cli_stream:method_named_twice")
+            if isinstance(impl_out, dict) and "_rec" in impl_out:
+                f.append("cli_stream:permutations=%d" % len(impl_out["_rec"].get("stream", [])))
+                rows, tied, mixed = tie_stats(stream_written(impl_out))
+                if tied >= 3:
+                    f.append("cli_stream:tie_block")
+                if mixed:
+                    f.append("cli_stream:target_decoy_tie")
+                f.append("cli_stream:err=%s" % impl_out.get("err"))
+            return f
         if case.get("kind") == "cli-hashseed":
-            return ["cli-hashseed"] + ["cli-several:" + o for o in multi_valued(case["argv"])]
+            f = ["cli-hashseed"] + ["cli-several:" + o for o in multi_valued(case["argv"])]
+            if case.get("meta", {}).get("ties"):
+                f.append("cli-hashseed:ties")
+            return f
         f = ["method=" + case["method"], "calls=%d" % len(case["inputs"])]
         for r in impl_out.get("seq", []):
             f.append("call:" + ("rows" if "rows" in r else r.get("err", "?")))
         return f
 
     def shrink(self, case):
+        if case.get("kind") == "cli_stream":
+            yield from cli_model.shrink(case)
+            return
         if case.get("kind") == "cli-hashseed":
             return
         ins = case["inputs"]
@@ -311,13 +641,13 @@ class P(Prop):
         rng = random.Random(seed * 7919 + 17)
         failures = []
         n_fresh = 10 if tier == "quick" else 120
-        n_cli = 10 if tier == "quick" else 80
+        n_cli = 16 if tier == "quick" else 96
         hashseeds = ["0", "1", "2", "3", str(rng.randint(4, 4000000))] + (["7", "11", "123", "999"] if tier == "thorough" else [])
         # (1) fresh-process reference
         lib.setup_impl_path()
         jobs = []
         for _ in range(n_fresh):
-            c = self.gen_case(rng, tier)
+            c = self.gen_seq_case(rng, tier)
             jobs.append(c)
 
         def fresh_proc(args):
@@ -345,11 +675,15 @@ class P(Prop):
         # description (file texts + argv); the first cases follow fixed profiles so that every run covers several FASTA
         # files / evidence files / digestion parameter sets / methods / map files, the rest is drawn at random.
         cli_cases = []
+        profiles = CLI_PROFILES + CLI_TIE_PROFILES
         for k in range(n_cli):
-            prof = CLI_PROFILES[k] if k < len(CLI_PROFILES) else None
+            prof = profiles[k] if k < len(profiles) else ({"ties": True} if rng.random() < 0.5 else None)
             c = self.gen_cli_case(rng, prof)
             c["hashseeds"] = list(hashseeds)
             cli_cases.append(c)
+        # the recomputation in command-line order (in this process, before the subprocesses are started: it changes
+        # the working directory and uses numpy's global generator)
+        inorders = [recompute_in_order(c) for c in cli_cases]
         with ThreadPoolExecutor(16) as ex:
             allargs = [(c, hs) for c in cli_cases for hs in hashseeds]
             results = list(ex.map(lambda a: run_cli_once(*a), allargs))
@@ -357,17 +691,30 @@ class P(Prop):
         it = iter(results)
         n_tables = 0
         multi = {}
-        for c in cli_cases:
+        ties = {"cases_generated_rich_in_ties": 0, "cases_with_a_tie_block_of_3_or_more_rows": 0, "cases_with_a_target_decoy_tie": 0,
+                "cases_with_ties_and_several_methods": 0, "cases_naming_a_method_twice": 0, "cases_with_spaces_around_a_method_name": 0,
+                "cases_compared_with_command_line_order": 0, "tool_accepts_spaces_around_method_names": accepts_spaces()}
+        for c, ino in zip(cli_cases, inorders):
             rs = [next(it) for _ in hashseeds]
             n_tables += sum(1 for r in rs if r["rc"] == 0 and any(n >= 2 for n in r["lines"].values()))
             for o in multi_valued(c["argv"]):
                 multi[o] = multi.get(o, 0) + 1
-            why = cli_runs_differ(c, rs)
+            rows, tied, mixed = tie_stats(rs[0]["files"])
+            names = c["meta"]["methods"]
+            ties["cases_generated_rich_in_ties"] += 1 if c["meta"].get("ties") else 0
+            ties["cases_with_a_tie_block_of_3_or_more_rows"] += 1 if tied >= 3 else 0
+            ties["cases_with_a_target_decoy_tie"] += 1 if mixed else 0
+            ties["cases_with_ties_and_several_methods"] += 1 if (tied >= 3 and len(names) > 1) else 0
+            ties["cases_naming_a_method_twice"] += 1 if len({n.strip() for n in names}) < len(names) else 0
+            ties["cases_with_spaces_around_a_method_name"] += 1 if any(n != n.strip() for n in names) else 0
+            ties["cases_compared_with_command_line_order"] += 1 if (ino.get("ok") and any(r["rc"] == 0 for r in rs)) else 0
+            why = cli_runs_differ(c, rs) or differs_from_command_line_order(c, rs, ino)
             if why:
-                failures.append({"case": c, "why": why, "impl": {"runs": [dict(r, stderr=r["stderr"][-300:]) for r in rs]}})
+                failures.append({"case": c, "why": why, "impl": {"runs": [dict(r, stderr=r["stderr"][-300:]) for r in rs],
+                                                                 "command_line_order": ino}})
         declared = list_valued_options()
         info = {"fresh_process_calls": evals, "cli_runs": cli_runs, "cli_runs_with_a_table": n_tables, "hashseeds": hashseeds,
-                "cli_cases": len(cli_cases),
+                "cli_cases": len(cli_cases), "cli_ties": ties,
                 "cli_cases_with_several_values_of": dict(sorted(multi.items())),
                 "list_valued_options_declared_by_the_tool": declared,
                 "list_valued_options_of_other_input_formats_not_exercised": sorted(set(declared) & OTHER_INPUT_OPTIONS),
@@ -408,6 +755,9 @@ class P(Prop):
         n_ev = pf.get("n_ev", rng.choice([1, 1, 2, 3]))
         n_sets = pf.get("n_sets", n_ev if (n_ev > 1 and not use_map and rng.random() < 0.35) else 1)
         remap = pf.get("remap", rng.choice([True, True, False, "both"]))
+        ties = bool(pf.get("ties"))
+        if ties:
+            n_sets, use_map = 1, False
         # --- methods
         chosen = []
         for kind in kinds:
@@ -424,9 +774,25 @@ class P(Prop):
             chosen = [rng.choice(sorted(table))]
         if remap == "both" and rng.random() < 0.5:
             chosen.reverse()
+        if ties:
+            # 2-4 methods of the given input kinds on one random stream, in an order that is seldom alphabetical; a
+            # method may be named twice (it is then run twice and its file written twice)
+            k = pf.get("n_methods", rng.choice([2, 2, 3, 4]))
+            pool = sorted(m for m, t in table.items() if t[0] in kinds)
+            chosen = [rng.choice(pool) for _ in range(k)]
+            if len(set(chosen)) < 2 and len(pool) > 1:
+                chosen[1] = rng.choice([m for m in pool if m != chosen[0]])
+            if k >= 3 and pf.get("twice", rng.random() < 0.3):
+                chosen[-1] = chosen[0]
+                if len(set(chosen)) < 2 and len(pool) > 1:
+                    chosen[1] = rng.choice([m for m in pool if m != chosen[0]])
+            if chosen == sorted(chosen) and rng.random() < 0.7:
+                chosen.reverse()
+            if pf.get("spaces", rng.random() < 0.3) and accepts_spaces():
+                chosen = [rng.choice([" %s", "%s ", " %s ", "%s"]) % m for m in chosen]
         # --- database
-        db = gen_cli.gen_database(rng, n_prot=rng.choice([None, None, 6, 8]))
-        if pf.get("dups", rng.random() < 0.5):
+        db = gen_cli.gen_tied_database(rng) if ties else gen_cli.gen_database(rng, n_prot=rng.choice([None, None, 6, 8]))
+        if pf.get("dups", rng.random() < (0.2 if ties else 0.5)):
             db = gen_cli.add_duplicates(rng, db)
         files, argv = {}, []
         if use_map:
@@ -447,7 +813,7 @@ class P(Prop):
                 names.append("../db%d.fasta" % i)
             argv += ["--fasta"] + names
         # --- evidence
-        psms = gen_cli.gen_psms(rng, db, n_exp=rng.randint(1, 3))
+        psms = gen_cli.gen_tied_psms(rng, db, n_exp=rng.randint(1, 2)) if ties else gen_cli.gen_psms(rng, db, n_exp=rng.randint(1, 3))
         for kind in kinds:
             names = []
             for i, rows in enumerate(gen_cli.split_psms(rng, psms, n_ev)):
@@ -465,7 +831,9 @@ class P(Prop):
                 several = set(pf["several"])
             elif n_sets > 1:
                 several = {o for o in DIG_OPTIONS if rng.random() < 0.4} or {rng.choice(["--min-length", "--cleavages", "--enzyme"])}
-            if n_sets == 1 and rng.random() < 0.08:
+            if ties:  # the evidence was drawn from the fully tryptic digest: only flags that keep those peptides
+                argv += ["--min-length", str(rng.choice([5, 6])), "--cleavages", str(rng.choice([0, 1, 2]))]
+            elif n_sets == 1 and rng.random() < 0.08:
                 argv += ["--enzyme", "no_enzyme"] if rng.random() < 0.5 else ["--digestion", "none"]
                 argv += ["--min-length", "5", "--max-length", "14"]
             else:
@@ -474,7 +842,7 @@ class P(Prop):
                         argv += [o] + [str(rng.choice(vals[o])) for _ in range(n_sets)]
                     elif o in ("--min-length", "--cleavages") or rng.random() < 0.3:
                         argv += [o, str(rng.choice(vals[o]))]
-        if pf.get("quant", kinds == ["mq"] and rng.random() < 0.5):
+        if pf.get("quant", kinds == ["mq"] and not ties and rng.random() < 0.5):
             argv.append("--do_quant")
             if rng.random() < 0.5:
                 argv += ["--lfq_min_peptide_ratios", "1"]
@@ -483,7 +851,7 @@ class P(Prop):
         if rng.random() < 0.3:
             argv += ["--protein_group_fdr_threshold", repr(rng.choice(pipeline.THRESHOLDS))]
         argv.append("--suppress_missing_peptide_warning")
-        meta = {"methods": chosen, "n_fasta": len(parts), "n_evidence": n_ev, "n_param_sets": n_sets, "inputs": kinds,
+        meta = {"methods": chosen, "ties": ties, "n_fasta": len(parts), "n_evidence": n_ev, "n_param_sets": n_sets, "inputs": kinds,
                 "peptides_shared_across_fasta_files": len(gen_cli.shared_across_files(parts)) if parts else 0,
                 "proteins": len(db)}
         return {"kind": "cli-hashseed", "files": files, "argv": argv, "meta": meta}
